@@ -175,17 +175,23 @@ Section Sign.
   Qed.
 
   (* ------------------------------------------------------------------ codec *)
-  Theorem sig_codec_roundtrip s :
+  Lemma g1_eqb_neq a b : a <> b -> g1_eqb P a b = false.
+  Proof. intros H. destruct (g1_eqb P a b) eqn:Eq; [|reflexivity]. apply (L_g1_eqb E LW) in Eq. contradiction. Qed.
+  Lemma g1_eqb_refl a : g1_eqb P a a = true.
+  Proof. apply (L_g1_eqb E LW). reflexivity. Qed.
+
+  Theorem sig_codec_roundtrip s : sig_A E s <> g1_zero P -> sig_e E s <> 0 ->
     sig_from_bytes E (sig_to_bytes E s) = Ok s /\ length (sig_to_bytes E s) = 80%nat.
   Proof.
-    destruct s as [A e]. unfold sig_to_bytes, sig_from_bytes. cbn [sig_A sig_e].
+    destruct s as [A e]. unfold sig_to_bytes, sig_from_bytes. cbn [sig_A sig_e]. intros HA He.
     assert (Hl : length (g1_enc P A ++ f_to_be S e) = 80%nat)
       by (rewrite app_length, (L_g1_enc_len E LW), (L_f_enc_len E LW); reflexivity).
     rewrite Hl. cbn [Nat.eqb negb]. split; [|reflexivity].
     rewrite sub_app_l by (rewrite (L_g1_enc_len E LW); reflexivity).
     rewrite (L_g1_dec_enc E LW). cbn [try_opt bind].
     rewrite sub_app_r by (rewrite ?(L_g1_enc_len E LW), ?(L_f_enc_len E LW); reflexivity).
-    rewrite (L_f_dec_enc E LW). reflexivity.
+    rewrite (L_f_dec_enc E LW). cbn [try_opt bind].
+    rewrite g1_eqb_neq, feqb_neq by assumption. reflexivity.
   Qed.
 
   Theorem sig_codec_canonical b s : sig_from_bytes E b = Ok s -> sig_to_bytes E s = b.
@@ -194,6 +200,7 @@ Section Sign.
     destruct (Nat.eqb (length b) 80) eqn:El; cbn [negb]; [|discriminate]. apply Nat.eqb_eq in El.
     destruct (g1_dec P (sub b 0 48)) as [A|] eqn:EA; cbn [try_opt bind]; [|discriminate].
     destruct (f_of_be S (sub b 48 80)) as [e|] eqn:Ee; cbn [try_opt bind]; [|discriminate].
+    destruct (g1_eqb P A (g1_zero P) || feqb S e 0)%bool; [discriminate|].
     intros H; inversion H; subst; clear H. cbn [sig_A sig_e].
     rewrite (L_g1_enc_dec E LW _ _ EA), (L_f_enc_dec E LW _ _ Ee).
     apply sub_split; [assumption|lia].
